@@ -162,6 +162,25 @@ pub trait Neg {
 	#[method(name = "optopt")]
 	fn optopt(&self, a: Option<Option<u8>>) -> RpcResult<String>;
 }
+#[rpc(client, server, namespace = "raw")]
+pub trait Raw {
+	#[method(name = "mapRaw", param_kind = map)]
+	async fn map_raw(&self, r#type: u32, r#ref: String) -> RpcResult<(u32, String)>;
+	#[method(name = "arrRaw", param_kind = array)]
+	fn arr_raw(&self, r#type: u32, r#ref: String) -> RpcResult<(String, u32)>;
+	#[method(name = "mapRawRenamed", param_kind = map)]
+	fn map_raw_renamed(&self, #[argument(rename = "type")] r#type: u32, r#match: bool) -> RpcResult<(bool, u32)>;
+	#[method(name = "mapRawOpt", param_kind = map, blocking)]
+	fn map_raw_opt(&self, r#move: u8, r#loop: Option<String>) -> RpcResult<(u8, Option<String>)>;
+	#[method(name = "mapUnder", param_kind = map)]
+	async fn map_under(&self, _lead: u8, trail_: u8, mid1dle: u8, r#type_: u8) -> RpcResult<(u8, u8, u8, u8)>;
+	#[method(name = "arrRawOpt")]
+	fn arr_raw_opt(&self, r#fn: i16, r#in: Option<u64>) -> RpcResult<(i16, Option<u64>)>;
+	#[subscription(name = "subscribeRaw", item = (u32, String), param_kind = map)]
+	async fn sub_raw(&self, r#type: u32, r#ref: String) -> SubscriptionResult;
+	#[subscription(name = "subscribeRawArr", item = u64, aliases = ["rawArrAlias"])]
+	async fn sub_raw_arr(&self, r#type: u32, r#while: Option<u64>) -> SubscriptionResult;
+}
 // FAMILY-END
 
 // ------------------------------------------------------------------ recording server side
@@ -386,6 +405,46 @@ impl NegServer for Impl {
 		let d = format!("{:?}", a);
 		self.0.rec("4.m1", &(&d,))?;
 		Ok(d)
+	}
+}
+
+#[async_trait]
+impl RawServer for Impl {
+	async fn map_raw(&self, r#type: u32, r#ref: String) -> RpcResult<(u32, String)> {
+		self.0.rec("5.m0", &(r#type, &r#ref))?;
+		Ok((r#type, r#ref))
+	}
+	fn arr_raw(&self, r#type: u32, r#ref: String) -> RpcResult<(String, u32)> {
+		self.0.rec("5.m1", &(r#type, &r#ref))?;
+		Ok((r#ref, r#type))
+	}
+	fn map_raw_renamed(&self, r#type: u32, r#match: bool) -> RpcResult<(bool, u32)> {
+		self.0.rec("5.m2", &(r#type, r#match))?;
+		Ok((r#match, r#type))
+	}
+	fn map_raw_opt(&self, r#move: u8, r#loop: Option<String>) -> RpcResult<(u8, Option<String>)> {
+		self.0.rec("5.m3", &(r#move, &r#loop))?;
+		Ok((r#move, r#loop))
+	}
+	async fn map_under(&self, _lead: u8, trail_: u8, mid1dle: u8, r#type_: u8) -> RpcResult<(u8, u8, u8, u8)> {
+		self.0.rec("5.m4", &(_lead, trail_, mid1dle, r#type_))?;
+		Ok((r#type_, mid1dle, trail_, _lead))
+	}
+	fn arr_raw_opt(&self, r#fn: i16, r#in: Option<u64>) -> RpcResult<(i16, Option<u64>)> {
+		self.0.rec("5.m5", &(r#fn, r#in))?;
+		Ok((r#fn, r#in))
+	}
+	async fn sub_raw(&self, pending: PendingSubscriptionSink, r#type: u32, r#ref: String) -> SubscriptionResult {
+		let args = serde_json::to_vec(&(r#type, &r#ref)).unwrap();
+		let items: Vec<(u32, String)> = (0..(1 + r#type % 3)).map(|i| (r#type.wrapping_add(i), format!("{}{}", r#ref, i))).collect();
+		serve_sub(self.0.clone(), "5.s0", args, pending, items).await;
+		Ok(())
+	}
+	async fn sub_raw_arr(&self, pending: PendingSubscriptionSink, r#type: u32, r#while: Option<u64>) -> SubscriptionResult {
+		let args = serde_json::to_vec(&(r#type, r#while)).unwrap();
+		let items: Vec<u64> = (0..(1 + (r#type % 3) as u64)).map(|i| wadd(r#while.unwrap_or(5), i)).collect();
+		serve_sub(self.0.clone(), "5.s1", args, pending, items).await;
+		Ok(())
 	}
 }
 
@@ -659,6 +718,20 @@ async fn run_stub(apis: &[Api], sh: &Arc<Shared>, api: usize, m: &str, args: &[u
 			};
 			fin(c.optopt(a).await)
 		}
+		(5, "m0") => stub!(args; c, map_raw; a: u32, b: String),
+		(5, "m1") => stub!(args; c, arr_raw; a: u32, b: String),
+		(5, "m2") => stub!(args; c, map_raw_renamed; a: u32, b: bool),
+		(5, "m3") => stub!(args; c, map_raw_opt; a: u8, b: Option<String>),
+		(5, "m4") => stub!(args; c, map_under; a: u8, b: u8, cc: u8, d: u8),
+		(5, "m5") => stub!(args; c, arr_raw_opt; a: i16, b: Option<u64>),
+		(5, "s0") => {
+			let (a, b): (u32, String) = serde_json::from_slice(args).expect("typed args of the case");
+			drain::<(u32, String)>(sh, c.sub_raw(a, b).await).await
+		}
+		(5, "s1") => {
+			let (a, b): (u32, Option<u64>) = serde_json::from_slice(args).expect("typed args of the case");
+			drain::<u64>(sh, c.sub_raw_arr(a, b).await).await
+		}
 		_ => "c:fail:".to_string() + &hex(b"no such stub"),
 	}
 }
@@ -791,6 +864,7 @@ fn main() {
 			mk_api(DotServer::into_rpc(Impl(sh.clone())).into(), &sh),
 			mk_api(GlueServer::into_rpc(Impl(sh.clone())).into(), &sh),
 			mk_api(NegServer::into_rpc(Impl(sh.clone())).into(), &sh),
+			mk_api(RawServer::into_rpc(Impl(sh.clone())).into(), &sh),
 		];
 		let stdin = std::io::stdin();
 		let stdout = std::io::stdout();
